@@ -149,7 +149,9 @@ Definition main_settings (env : pyenv) (p : parsed) : option py_settings_obj :=
   | None => None
   | Some stack =>
       match settings_of (env_cwd env) stack template, exclude_strs stack with
-      | Some st, Some ex => Some (settings_object st ex)
+      | Some st, Some ex =>
+          (* main() rejects a mapping given for rst.headers itself (repair of F27) *)
+          if headers_ok stack then Some (settings_object st ex) else None
       | _, _ => None
       end
   end.
@@ -221,7 +223,7 @@ Proof.
     match goal with
     | |- context [Config.settings_of ?c ?st template] =>
         destruct (Config.settings_of c st template) as [stt|]; [|reflexivity];
-        destruct (exclude_strs st) as [ex|]; reflexivity
+        destruct (headers_ok st); destruct (exclude_strs st) as [ex|]; reflexivity
     end.
 Qed.
 
@@ -332,6 +334,7 @@ Proof.
   intros env p stack obj k ty Hc Hm Hk Hne. unfold main_settings in Hm. rewrite Hc in Hm.
   destruct (Config.settings_of (env_cwd env) stack template) as [st|] eqn:Es; [|discriminate Hm].
   destruct (exclude_strs stack) as [ex|]; [|discriminate Hm].
+  destruct (headers_ok stack); [|discriminate Hm].
   injection Hm as Hm. subst obj.
   destruct (settings_of_lookup _ _ _ _ _ _ Es Hk) as [v [Hv Ha]].
   exists v. split; [exact Hv|]. unfold settings_object. rewrite set_key_other; assumption.
@@ -345,6 +348,7 @@ Proof.
   intros env p stack obj Hc Hm. unfold main_settings in Hm. rewrite Hc in Hm.
   destruct (Config.settings_of (env_cwd env) stack template) as [st|]; [|discriminate Hm].
   destruct (exclude_strs stack) as [ex|]; [|discriminate Hm].
+  destruct (headers_ok stack); [|discriminate Hm].
   injection Hm as Hm. subst obj. unfold patterns_of, opt_strs, settings_object.
   rewrite set_key_assoc. reflexivity.
 Qed.
@@ -386,6 +390,7 @@ Proof.
   { unfold main_settings in Hm. rewrite Hc in Hm.
     destruct (Config.settings_of (env_cwd env) stack template) as [st|]; [|discriminate Hm].
     destruct (exclude_strs stack) as [ex|]; [|discriminate Hm].
+    destruct (headers_ok stack); [|discriminate Hm].
     injection Hm as Hm. subst obj. exists (CStrs ex). split; [|reflexivity].
     unfold settings_object. apply set_key_assoc. }
   unfold glue_keys in Hin. cbn [In] in Hin.
@@ -404,7 +409,9 @@ Definition found_bool (f : option (yval * source)) : bool :=
   match f with Some (YBool b, _) => b | _ => false end.
 Definition found_opt_str (f : option (yval * source)) : option str :=
   match f with Some (YStr x, _) => Some x | _ => None end.
-(* StrSeq: a list of strings, a string split on white space, the keys of a mapping (F27) *)
+(* StrSeq: a list of strings, a string split on white space, the keys of a mapping (what the
+   template alone would give, F27; since the repair main() rejects a mapping for rst.headers, so
+   that case does not occur for the object of an accepted configuration: accepted_headers_not_mapping) *)
 Definition found_strs (f : option (yval * source)) : list str :=
   match f with
   | Some (YList l, _) => strs_of l
@@ -450,6 +457,45 @@ Proof.
     try discriminate Hv; try (injection Hv as Hv; subst v; reflexivity).
   destruct (all_strs l) as [xs|] eqn:El; [|discriminate Hv].
   injection Hv as Hv. subst v. cbn [found_strs]. rewrite (all_strs_strs_of _ _ El). reflexivity.
+Qed.
+
+(* F27 closed: the settings object exists only when the raw winning value of rst.headers is not a
+   mapping; a mapping there means no object, hence (rejected_configuration_runs_nothing) nothing runs *)
+Lemma accepted_headers_not_mapping : forall env p stack obj,
+  consulted env p = Some stack -> main_settings env p = Some obj ->
+  headers_ok stack = true
+  /\ forall ks src, resolve stack k_headers <> Some (YMap ks, src).
+Proof.
+  intros env p stack obj Hc Hm. unfold main_settings in Hm. rewrite Hc in Hm.
+  destruct (Config.settings_of (env_cwd env) stack template) as [st|]; [|discriminate Hm].
+  destruct (exclude_strs stack) as [ex|]; [|discriminate Hm].
+  destruct (headers_ok stack) eqn:Hh; [|discriminate Hm].
+  split; [reflexivity|]. intros ks src Hr. unfold headers_ok in Hh.
+  change (s"rst.headers") with k_headers in Hh. rewrite Hr in Hh. discriminate Hh.
+Qed.
+
+Theorem headers_mapping_no_settings_object : forall env toks p stack ks src,
+  parse_args cli_table toks = Some p -> consulted env p = Some stack ->
+  resolve stack k_headers = Some (YMap ks, src) ->
+  main_settings_of env toks = None.
+Proof.
+  intros env toks p stack ks src Hp Hc Hr. unfold main_settings_of. rewrite Hp.
+  destruct (main_settings env p) as [obj|] eqn:Hm; [|reflexivity].
+  exfalso. exact (proj2 (accepted_headers_not_mapping env p stack obj Hc Hm) ks src Hr).
+Qed.
+
+(* the settings object exists exactly when the main-level acceptance of ConfigFacts holds *)
+Lemma main_settings_iff_accepted : forall env p stack,
+  consulted env p = Some stack ->
+  is_some (main_settings env p) = main_accepts (env_cwd env) stack.
+Proof.
+  intros env p stack Hc. unfold main_settings, main_accepts. rewrite Hc.
+  change excl_opt with excl_key.
+  destruct (Config.settings_of (env_cwd env) stack template) as [st|]; [|reflexivity].
+  unfold exclude_strs. destruct (all_contents stack excl_key) as [l|] eqn:Eall.
+  - destruct (all_contents_all_strs _ _ _ Eall) as [xs Hxs]. rewrite Hxs.
+    destruct (headers_ok stack); reflexivity.
+  - destruct (headers_ok stack); reflexivity.
 Qed.
 
 (* For an accepted configuration: (i) the whole generated program is the run of the model layers with
@@ -992,6 +1038,7 @@ End WholeExamples.
    source_document_is_model, model_main_cases;
    glue_keys_in_template, template_keys_covered, glue_reads_well_typed_values (the glue);
    settings_reach_every_layer, every_flag_reaches_its_layer (a);
+   accepted_headers_not_mapping, headers_mapping_no_settings_object, main_settings_iff_accepted (F27 closed);
    rejected_configuration_runs_nothing, rejected_configuration_runs_nothing_source,
    accepted_configuration_runs_every_input (b);
    inputs_share_settings, input_sees_original_settings (c);
@@ -1018,3 +1065,6 @@ Print Assumptions aggregator_reads_the_object.
 Print Assumptions WholeExamples.whole_program_example_run.
 Print Assumptions WholeExamples.whole_program_without_worlds_ok_refuted.
 Print Assumptions WholeExamples.highest_priority_rule_for_exclude_filters_refuted.
+Print Assumptions accepted_headers_not_mapping.
+Print Assumptions headers_mapping_no_settings_object.
+Print Assumptions main_settings_iff_accepted.
